@@ -44,12 +44,12 @@ Record relact := { ra_ref : nat; ra_pc : rpc; ra_cons : option nat (* the consum
 
 (* ---- consumers (C10) ---- *)
 Inductive cpc :=
-| CBlocked                      (* Wait / ResolveWithReleased: blocked in Await *)
-| CRel (e : nat)                 (* got error e (or cancellation): inside its own ref.Release() *)
+| CBlocked                      (* Wait / ResolveWithReleased: blocked in Await; Access: at the top of its loop (before section S1) *)
+| CRel (e : nat)                 (* got error e (or cancellation), Access: is returning code e: inside its own ref.Release() *)
 | CRet (v e : nat) (held : bool)(* returned (value, error); held: it still owns the reference *)
 | CAccCb (v : nat)              (* Access: inside the callback with value v *)
 | CAccWait                      (* Access: waiting for a change *)
-| CAccRet (code : nat).         (* Access returned: 0 the callback's result, 1 Canceled, e+2 the resolver's error *)
+| CAccRet (code : nat).         (* Access returned this error code: 0 nil, 1 Canceled, otherwise the callback's or the resolver's error *)
 
 Inductive ckind := CKWait | CKWwr | CKAccess.
 
@@ -63,8 +63,9 @@ Record cons := {
   ac_val : nat; ac_err : nat; ac_res : bool; ac_nonce : nat; ac_snap : nat; ac_cbcanc : bool; ac_cbres : nat;
 }.
 
-Record fixes := { fx_wait : bool; fx_nilcb : bool }.
-Definition repaired : fixes := {| fx_wait := true; fx_nilcb := true |}.
+(* fx_accnonce = false is the seeded variant C10_A of Access ("value equal again" counts as unchanged) *)
+Record fixes := { fx_wait : bool; fx_nilcb : bool; fx_accnonce : bool }.
+Definition repaired : fixes := {| fx_wait := true; fx_nilcb := true; fx_accnonce := true |}.
 
 Record st := {
   kctx : nat; keep : bool;
@@ -384,7 +385,8 @@ Definition release_section (s : st) (a : nat) : st :=
                 let s1 := remove_ref (set_relacts s (set_nth (relacts s) a {| ra_ref := ra_ref x; ra_pc := RDone; ra_cons := ra_cons x |})) (ra_ref x) in
                 match ra_cons x with
                 | Some c => match cpcv (getc s1 c) with
-                            | CRel e => set_conss s1 (set_nth (conss s1) c (with_cpc (getc s1 c) (CRet 0 e false)))
+                            | CRel e => set_conss s1 (set_nth (conss s1) c (with_cpc (getc s1 c)
+                                          (match ck (getc s1 c) with CKAccess => CAccRet e | _ => CRet 0 e false end)))
                             | _ => s1
                             end
                 | None => s1
@@ -405,7 +407,7 @@ Definition async_section (s : st) (a : nat) : st :=
 
 (* ---------- consumers ---------- *)
 Definition new_cons (k : ckind) (r : nat) : cons :=
-  {| ck := k; cref := r; ccanc := false; cpcv := match k with CKAccess => CAccWait | _ => CBlocked end;
+  {| ck := k; cref := r; ccanc := false; cpcv := CBlocked;
      cw_res := None; ww_res := false; ww_nonce := 0; ww_prom := None; ww_once := false; ww_fired := 0; ww_firepc := None;
      ac_val := 0; ac_err := 0; ac_res := false; ac_nonce := 0; ac_snap := 0; ac_cbcanc := false; ac_cbres := 0 |}.
 
@@ -425,6 +427,26 @@ Definition cons_fail (s : st) (c : nat) (x : cons) (e : nat) : st :=
   let '(s1, parked) := release_call_by (setc s c (with_cpc x (CRel e))) (cref x) (Some c) in
   if parked then s1 else setc s1 c (with_cpc x (CRet 0 e false)).
 
+(* ---- Access ---- *)
+Definition acc_set (x : cons) (p : cpc) (n sn : nat) (cbc : bool) : cons :=
+  {| ck := ck x; cref := cref x; ccanc := ccanc x; cpcv := p; cw_res := cw_res x; ww_res := ww_res x; ww_nonce := ww_nonce x;
+     ww_prom := ww_prom x; ww_once := ww_once x; ww_fired := ww_fired x; ww_firepc := ww_firepc x; ac_val := ac_val x; ac_err := ac_err x;
+     ac_res := ac_res x; ac_nonce := n; ac_snap := sn; ac_cbcanc := cbc; ac_cbres := ac_cbres x |}.
+
+(* Access returns [code]: the deferred ref.Release() goes through the release gate, then the call returns *)
+Definition acc_ret (s : st) (c : nat) (x : cons) (code : nat) : st :=
+  let '(s1, parked) := release_call_by (setc s c (with_cpc x (CRel code))) (cref x) (Some c) in
+  if parked then s1 else setc s1 c (with_cpc x (CAccRet code)).
+
+(* section S1 under Access's private Broadcast: currNonce++, snapshot, fresh wait channel; then: an error is returned,
+   a value is handed to the callback (its context is a child of the caller's), otherwise wait for a change *)
+Definition acc_s1 (s : st) (c : nat) (x : cons) : st :=
+  let n := S (ac_nonce x) in
+  if negb (Nat.eqb (ac_err x) 0) then acc_ret s c (acc_set x (cpcv x) n n (ac_cbcanc x)) (ac_err x)
+  else if ac_res x then setc s c (acc_set x (CAccCb (ac_val x)) n n false)
+  else if ccanc x then acc_ret s c (acc_set x (cpcv x) n n (ac_cbcanc x)) 1
+  else setc s c (acc_set x CAccWait n n false).
+
 Definition cons_step (s : st) (c : nat) : st :=
   match nth_error (conss s) c with
   | None => s
@@ -441,8 +463,32 @@ Definition cons_step (s : st) (c : nat) : st :=
       | Some (v, e) => if Nat.eqb e 0 then setc s c (with_cpc x (CRet v 0 true)) else cons_fail s c x e
       | None => if ccanc x then cons_fail s c x 1 else s
       end
+    | CKAccess, CBlocked => acc_s1 s c x
+    | CKAccess, CAccWait =>
+      (* select { ctx.Done -> Canceled | waitCh -> loop }: the wait channel is closed iff a broadcast happened since S1 *)
+      if negb (Nat.eqb (ac_nonce x) (ac_snap x)) then acc_s1 s c x
+      else if ccanc x then acc_ret s c x 1 else s
     | _, _ => s
     end
+  end.
+
+(* the Access callback returns [res]: 0 nil, 1 "return ctx.Err()" (Canceled iff its context is cancelled), otherwise an
+   error code.  Then: ctx.Err() check, section S2 (same nonce?), return or loop *)
+Definition cb_return (fx : fixes) (s : st) (c : nat) (res : nat) : st :=
+  match nth_error (conss s) c with
+  | Some x =>
+    match ck x, cpcv x with
+    | CKAccess, CAccCb v =>
+      let rc := match res with 1 => if ac_cbcanc x || ccanc x then 1 else 0 | _ => res end in
+      if ccanc x then acc_ret s c x 1
+      else
+        let same := Nat.eqb (ac_nonce x) (ac_snap x) in
+        let unchanged := if fx_accnonce fx then same
+                         else same || (ac_res x && Nat.eqb (ac_err x) 0 && Nat.eqb (ac_val x) v) in
+        if unchanged then acc_ret s c x rc else setc s c (with_cpc x CBlocked)
+    | _, _ => s
+    end
+  | None => s
   end.
 
 (* ---------- events ---------- *)
@@ -456,10 +502,11 @@ Inductive ev :=
 | EProceed (g : nat) (enter : bool)
 | EResReturn (g v : nat) (hasrel : bool) (e : nat)
 | EStore (g : nat)
-| EStartCons (k : nat)                  (* 0 Wait, 1 ResolveWithReleased *)
+| EStartCons (k : nat)                  (* 0 Wait, 1 ResolveWithReleased, 2 Access *)
 | EConsStep (c : nat)
 | EConsCancel (c : nat)
-| EFire (c : nat).                      (* the goroutine spawned by WaitWithReleased's callback: ref.Release(); released() *)
+| EFire (c : nat)                       (* the goroutine spawned by WaitWithReleased's callback: ref.Release(); released() *)
+| ECbReturn (c res : nat).              (* the callback of Access consumer c returns *)
 
 Definition kind_of (k : nat) : cbkind := match k with 0 => KNil | 1 => KLog | _ => KCallsRel end.
 
@@ -477,14 +524,15 @@ Definition step (fx : fixes) (s : st) (e : ev) : st :=
   match e with
   | ESetCtx c => fst (set_context s c)
   | EAddRef k => add_ref fx s (kind_of k)
-  | ERelease r => release_call s r
+  | ERelease r => (* the reference of an Access call is private to it *)
+    match rkind (nth r (refs s) ref0) with KAccess _ => s | _ => release_call s r end
   | ERelSect a => release_section s a
   | EReleased g => match nth_error (gs s) g with Some x => released_section s (gnonce x) | None => s end
   | EAsync a => async_section s a
   | EProceed g en => proceed fx s g en
   | EResReturn g v hr e => resolver_return s g v hr e
   | EStore g => store s g
-  | EStartCons k => start_consumer fx s (match k with 0 => CKWait | _ => CKWwr end)
+  | EStartCons k => start_consumer fx s (match k with 0 => CKWait | 1 => CKWwr | _ => CKAccess end)
   | EConsStep c => cons_step s c
   | EConsCancel c =>
     match nth_error (conss s) c with
@@ -495,6 +543,7 @@ Definition step (fx : fixes) (s : st) (e : ev) : st :=
     | None => s
     end
   | EFire c => fire_section s c
+  | ECbReturn c res => cb_return fx s c res
   end.
 
 Definition run (fx : fixes) (s0 : st) (es : list ev) : st := fold_left (step fx) es s0.
